@@ -2,6 +2,7 @@ package checks
 
 import (
 	"fmt"
+	"go/token"
 	"go/types"
 	"sort"
 	"strings"
@@ -200,6 +201,66 @@ func runC18(c *core.Ctx) {
 					}
 				}
 				key := core.FnName(fn) + "|go"
+				// (go.escape) code of the simulator runs under the per-interpreter lock, which is released when ServeHTTP
+				// returns: a goroutine that keeps using the interpreter or its request context outlives the lock
+				if rel := strings.TrimPrefix(strings.TrimPrefix(fn.Pkg.Pkg.Path(), core.ModPath), "/"); rel == "interpreter" {
+					if mc, ok := g.Common().Value.(*ssa.MakeClosure); ok {
+						captured := ""
+						for _, bind := range mc.Bindings {
+							t := derefType(derefType(bind.Type()))
+							switch core.NamedTypeName(t) {
+							case "Interpreter", "Context":
+								captured = core.NamedTypeName(t)
+							}
+						}
+						if captured != "" {
+							c.Report("go.escape", key+"|captures "+captured, in.Pos(), fmt.Sprintf("%s starts a goroutine that captures the %s: it keeps reading per-request state after ServeHTTP has returned and released the interpreter lock, concurrently with the next request", core.FnName(fn), captured))
+						} else {
+							c.Discharge("go.escape", key, in.Pos(), "the goroutine captures no interpreter state")
+						}
+					}
+				}
+				// (go.cancel) instances started in a loop must not cancel a context they share
+				if inLoop {
+					if mc, ok := g.Common().Value.(*ssa.MakeClosure); ok {
+						cl := mc.Fn.(*ssa.Function)
+						shared := ""
+						for _, cb := range cl.Blocks {
+							for _, ci := range cb.Instrs {
+								call, ok := ci.(ssa.CallInstruction)
+								if !ok {
+									continue
+								}
+								v := call.Common().Value
+								if ld, ok := v.(*ssa.UnOp); ok && ld.Op == token.MUL {
+									v = ld.X
+								}
+								fv, ok := v.(*ssa.FreeVar)
+								if !ok {
+									continue
+								}
+								// what was captured: the cancel function of a context created outside the closure?
+								for i, f2 := range cl.FreeVars {
+									if f2 != fv || i >= len(mc.Bindings) {
+										continue
+									}
+									for x := range core.BackSlice(mc.Bindings[i]) {
+										if cc, ok := x.(*ssa.Call); ok {
+											if cal := cc.Common().StaticCallee(); cal != nil && cal.Pkg != nil && cal.Pkg.Pkg.Path() == "context" && strings.HasPrefix(cal.Name(), "With") {
+												shared = cal.Name()
+											}
+										}
+									}
+								}
+							}
+						}
+						if shared != "" {
+							c.Report("go.cancel", key+"|shared-cancel", in.Pos(), fmt.Sprintf("every goroutine started by this loop calls the cancel function of one context.%s created outside of it: the first one to finish cancels the others, whose results are lost", shared))
+						} else {
+							c.Discharge("go.cancel", key, in.Pos(), "no instance cancels a context shared with the others")
+						}
+					}
+				}
 				if !inLoop {
 					if propertyScope(fn) {
 						c.Discharge("go.shared", key, in.Pos(), "single instance (not in a loop); parent joins it")
@@ -242,6 +303,7 @@ func runC18(c *core.Ctx) {
 			}
 		}
 	}
+	c.ExpectCanary("go.escape")
 	c.Extra("go_statements_scanned", goCount)
 	c.Floor("go.shared", 2)
 }
